@@ -535,6 +535,27 @@ func (c *c17ctx) schemaBlock() {
 				return fmt.Errorf("column %d has %d rows after a zero-row block", i, tc.Column().Rows())
 			}
 		}
+		// The same header inside a compressed frame, read the way the client reads the block
+		// of a Data packet on a compressed connection (every field through the decompressor).
+		{
+			method := []byte{ref.MethodNone, ref.MethodLZ4, ref.MethodZSTD}[(rev+len(cols))%3]
+			frame, ferr := ref.BuildFrame(method, b.Buf)
+			if ferr != nil {
+				return ferr
+			}
+			_, res2 := typedTargets(cols)
+			r := readerOf(append(append([]byte(nil), frame...), sentinel...))
+			r.EnableCompression()
+			var g3 proto.Block
+			if err := safely(func() error { return g3.DecodeBlock(r, rev, res2) }); err != nil {
+				return fmt.Errorf("zero-row block %v inside a compressed frame (method %#x): %w", typeNames(cols), method, err)
+			}
+			r.DisableCompression()
+			rest := make([]byte, len(sentinel))
+			if err := r.ReadFull(rest); err != nil || string(rest) != sentinel || g3.Columns != len(cols) || g3.Rows != 0 || g3.Info != blk.Info && rev >= ref.RevBlockInfo {
+				return fmt.Errorf("zero-row block %v inside a compressed frame (method %#x): decoded %+v, rest %x (err %v)", typeNames(cols), method, g3, rest, err)
+			}
+		}
 		allInfer := true
 		for _, col := range cols {
 			allInfer = allInfer && autoInferable(col.Kind.T.Name)
